@@ -19,7 +19,9 @@ RULE = ('XML documents (lxml-xml) with default, prefixed, redeclared and undecla
         'HTML5 documents (html5lib) with inline SVG/MathML and xlink attributes, html.parser documents (no namespace '
         'support); prefix maps equal to, different from and colliding with the document\'s own prefixes, with and without a '
         'default entry, and with prefixes mapped to the EMPTY string (= no namespace: n|E as |E, [n|a] as [|a]); every selector form: ns|E, *|E, |E, E, ns|*, [ns|a], [*|a], [|a], [a], unmapped prefixes; the same forms '
-        'composed: compounds, combinators, selector lists, :is()/:where()/:not()/:has(), and reached through custom '
+        'composed: compounds, combinators, selector lists, :is()/:where()/:not()/:has(), child-position tests in the same compound '
+        '(ns|E:nth-child(an+b) / :nth-last-child(an+b), with and without "of S", :first-/:last-/:only-child; siblings in other '
+        'namespaces, maps with a default entry), and reached through custom '
         'pseudo-classes (custom={":--x": "ns|E"}, nested definitions; patterns whose only prefixes live in the custom '
         'definitions and the reverse); one pattern evaluated under several prefix maps back to back (no purge). Checked '
         'on PY against an independent reading of the rule from the element\'s namespace URI / the attribute key\'s namespace '
@@ -133,6 +135,8 @@ def render(sel_form):
 # (element local name + namespace URI, attribute key local name + namespace URI, parent / sibling links).
 #   compound  ('cp', type-form-or-None, [item, ...])
 #   item      ('attr', pfx, name) | ('is'|'where'|'not', [complex, ...]) | ('has', comb, compound) | ('custom', ':--name')
+#             | ('nth', last, a, b, of-list-or-None, 'an+b text')    :nth-child(an+b [of S]) / :nth-last-child(an+b [of S])
+#             | ('nthkw', 'first-child'|'last-child'|'only-child')
 #   complex   [compound, comb, compound, ...]            selector list = [complex, ...]
 # Custom pseudo-classes are one more way to spell a selector list: `customs` maps ':--name' -> selector list, and the
 # definition obeys the same prefix map as the pattern that uses it.
@@ -225,6 +229,53 @@ def value_test(op, val, v):
     raise ValueError(op)
 
 
+def element_siblings(e):
+    """The element children of the element's parent, in document order (the root: the elements at the top of the document)."""
+    return [c for c in e.parent.contents if isinstance(c, bs4.Tag)] if e.parent is not None else [e]
+
+
+def anb_text(r, a, b):
+    """One of the ways CSS writes the arithmetic progression a*n + b (n = 0, 1, 2, ...)."""
+    if a == 2 and b == 1 and r.random() < 0.4:
+        return r.choice(['odd', 'ODD', 'odd'])
+    if a == 2 and b == 0 and r.random() < 0.4:
+        return r.choice(['even', 'Even', 'even'])
+    if a == 0:
+        return r.choice([f'{b}', f'{b}', f'+{b}' if b >= 0 else f'{b}', f'0n{b:+d}'])
+    an = {1: r.choice(['n', '+n', '1n']), -1: r.choice(['-n', '-1n'])}.get(a, f'{a}n')
+    if b == 0:
+        return r.choice([an, an, an + '+0'])
+    sign, mag = ('+' if b > 0 else '-'), abs(b)
+    return an + r.choice([f'{sign}{mag}', f'{sign}{mag}', f' {sign} {mag}', f'{sign} {mag}'])
+
+
+def anb_hits(a, b, pos):
+    """Is pos = a*n + b for some n >= 0?"""
+    d = pos - b
+    return d == 0 if a == 0 else (d % a == 0 and d // a >= 0)
+
+
+def gen_nth(r, depth, customs, bare, pool=DEFAULT_POOL, witness=None):
+    """A child-position test.  With a witness element, mostly one that holds at the witness's real position among ALL the
+    element children of its parent (whatever their namespaces)."""
+    if r.random() < 0.12:
+        return ('nthkw', r.choice(['first-child', 'last-child', 'only-child']))
+    last = r.random() < 0.4
+    if witness is not None and r.random() < 0.8:
+        sibs = element_siblings(witness)
+        if last:
+            sibs = sibs[::-1]
+        pos = next(i for i, x in enumerate(sibs) if x is witness) + 1
+    else:
+        pos = r.choice([1, 1, 2, 2, 3, 4])
+    a = r.choice([0, 0, 0, 0, 1, 2, 2, 3, -1, -1, -2])
+    b = pos - a * r.choice([0, 0, 1, 2])
+    of = None
+    if depth > 0 and r.random() < 0.25:
+        of = [gen_complex(r, 0, customs, bare, pool) for _ in range(r.choice([1, 1, 2]))]
+    return ('nth', last, a, b, of, anb_text(r, a, b))
+
+
 def gen_compound(r, depth, customs, bare, pool=DEFAULT_POOL):
     # half of the compounds describe an element that exists (name, namespace as the map spells it, attributes)
     w = r.choice(pool['els']) if pool.get('els') and r.random() < 0.5 else None
@@ -246,6 +297,9 @@ def gen_compound(r, depth, customs, bare, pool=DEFAULT_POOL):
             items.append((r.choice(['is', 'not', 'not', 'where']), [gen_complex(r, depth - 1, customs, bare, pool) for _ in range(r.choice([1, 1, 2]))]))
         elif depth > 0 and x < 0.58:
             items.append(('has', r.choice(COMBS), gen_compound(r, depth - 1, customs, bare, pool)))
+        elif x >= 0.86:
+            # a namespace test combined with a child-position test in one compound
+            items.append(gen_nth(r, depth, customs, bare, pool, w))
         else:
             items.append(gen_attr(r, pfx(), pool, w))
     return ('cp', t, items)
@@ -278,6 +332,25 @@ def gen_composed(r, pool):
             if r.random() < 0.3:
                 lst.insert(r.choice([0, 1]), gen_complex(r, 0, [], True, pool))
             return lst, {}, 'ns-chain'
+    if pool.get('els') and r.random() < 0.14:
+        # `ns|E:nth-child(an+b)`: an element that exists, named through the map (or not at all), at its real position among ALL its
+        # parent's element children - whatever namespaces the siblings are in and whatever the map's default entry says
+        w = r.choice(pool['els'])
+        x = r.random()
+        t = None if x < 0.15 else ('type', None if x < 0.3 else prefix_for(r, pool, w.namespace), r.choice([w.name, w.name, '*']))
+        items = [gen_nth(r, r.choice([0, 0, 1]), [], False, pool, w)]
+        if r.random() < 0.25:
+            items.insert(r.choice([0, 1]), r.choice([gen_attr(r, r.choice(pfxs), pool, w), gen_nth(r, 0, [], False, pool, w)]))
+        cx = [('cp', t, items)]
+        par = w.parent
+        if isinstance(par, bs4.Tag) and not isinstance(par, bs4.BeautifulSoup) and r.random() < 0.3:
+            cx = [('cp', ('type', prefix_for(r, pool, par.namespace), r.choice([par.name, '*'])), []), ' > '] + cx
+        elif r.random() < 0.15:
+            cx += [r.choice(COMBS), gen_compound(r, 0, [], False, pool)]
+        lst = [cx]
+        if r.random() < 0.2:
+            lst.insert(r.choice([0, 1]), gen_complex(r, 0, [], False, pool))
+        return lst, {}, 'ns-nth'
     where = r.choice(['custom-only', 'custom-only', 'pattern-only', 'both', 'both', 'no-custom', 'no-custom'])
     customs = {}
     if where != 'no-custom':
@@ -327,6 +400,10 @@ def render_compound(cp):
             out += render_attr(it)
         elif it[0] == 'custom':
             out += it[1]
+        elif it[0] == 'nthkw':
+            out += ':' + it[1]
+        elif it[0] == 'nth':
+            out += f':nth-{"last-" if it[1] else ""}child({it[5]}{" of " + render_list(it[4]) if it[4] is not None else ""})'
         elif it[0] == 'has':
             out += f':has({it[1].strip()} {render_compound(it[2])})' if it[1].strip() else f':has({render_compound(it[2])})'
         else:
@@ -350,6 +427,8 @@ def uses_prefix(lst):
             if it[0] == 'has' and cp_uses(it[2]):
                 return True
             if it[0] in ('is', 'not', 'where') and uses_prefix(it[1]):
+                return True
+            if it[0] == 'nth' and it[4] is not None and uses_prefix(it[4]):
                 return True
         return False
     return any(cp_uses(x) for cx in lst for x in cx if not isinstance(x, str))
@@ -437,6 +516,21 @@ class TreeOracle:
             return self.attr(e, *it[1:])
         if k == 'custom':
             return self.any_of(e, self.customs[it[1]], False)
+        if k == 'nthkw':
+            sibs = element_siblings(e)
+            return {'first-child': sibs[0] is e, 'last-child': sibs[-1] is e, 'only-child': len(sibs) == 1}[it[1]]
+        if k == 'nth':
+            # position among the parent's element children - ALL of them when no `of S` is written (namespaces play no part in
+            # counting, and neither does the map's default entry), those that match S otherwise (S is a nested selector list)
+            _, last, a, b, of = it[:5]
+            sibs = element_siblings(e)
+            if of is not None:
+                if not self.any_of(e, of, False):
+                    return False
+                sibs = [x for x in sibs if self.any_of(x, of, False)]
+            if last:
+                sibs = sibs[::-1]
+            return anb_hits(a, b, next(i for i, x in enumerate(sibs) if x is e) + 1)
         if k == 'not':
             return not self.any_of(e, it[1], False)
         if k == 'has':
@@ -556,6 +650,10 @@ def make_cases_factory(state):
                     state['composed'] += 1
                     state['where_' + where] += 1
                     state['attr_value_tests'] += any(q in t for t in [sel] + list(custom.values()) for q in ('="', "='"))
+                    if any(q in t for t in [sel] + list(custom.values()) for q in (':nth-child(', ':nth-last-child(')):
+                        state['child_position_tests'] += 1
+                        if '' in nsmap and any((e.namespace or '') != nsmap[''] for e in els):
+                            state['child_position_tests_default_entry_foreign_elements'] += 1
                     if customs and not uses_prefix(lst) and any(uses_prefix(v) for v in customs.values()) and any(k in sel for k in customs):
                         state['prefix_only_via_custom'] += 1
                         if '' not in nsmap:
@@ -621,6 +719,8 @@ def run(chk):
                              'of_which_map_without_default_entry': state['prefix_only_via_custom_no_default'],
                              'prefix_map_sequences_without_purge': state['map_sequences'],
                              'composed_selectors_with_attribute_value_tests': state['attr_value_tests'],
+                             'composed_selectors_with_nth_child_or_nth_last_child': state['child_position_tests'],
+                             'of_which_map_with_default_entry_and_elements_outside_it': state['child_position_tests_default_entry_foreign_elements'],
                              'documents': state['documents'],
                              'prefix_maps_with_a_prefix_mapped_to_the_empty_string': state['maps_with_prefix_mapped_to_empty'],
                              'single_forms_written_with_such_a_prefix': state['forms_with_prefix_mapped_to_empty'],
